@@ -284,297 +284,6 @@ def _sg_neg(a):
     return {"z": "z", "p": "n", "n": "p"}.get(a)
 
 
-class SR(Sym):
-    """real number n/d, d > 0.  sg in {'z','p','nn','n',None}: syntactically known sign."""
-    __slots__ = ("n", "d", "sg")
-
-    def __init__(self, n, d=_ONE, sg=None):
-        self.n = n
-        self.d = d
-        if sg is None and is_num(n):
-            sg = _sg_of_const(numval(n))
-        self.sg = sg
-
-    # -- construction ------------------------------------------------------------------
-    @staticmethod
-    def const(x):
-        if isinstance(x, Fraction):
-            return SR(R(x))
-        return SR(R(x))
-
-    @staticmethod
-    def var(name, sg=None):
-        v = z3.Real(name)
-        if sg == "p":
-            ST.assume(v > 0)
-        elif sg == "nn":
-            ST.assume(v >= 0)
-        elif sg == "n":
-            ST.assume(v < 0)
-        return SR(v, _ONE, sg)
-
-    @staticmethod
-    def lift(x):
-        if isinstance(x, SR):
-            return x
-        if isinstance(x, _PYNUM):
-            xf = float(x) if not isinstance(x, Fraction) else x
-            if isinstance(xf, float) and (math.isinf(xf) or math.isnan(xf)):
-                raise Poison("non-finite float %r in real arithmetic" % xf)
-            return SR(R(x if isinstance(x, (int, Fraction)) else xf))
-        raise SymError("cannot lift %r to SR" % (x,))
-
-    def is_const(self):
-        return is_num(self.n) and is_num(self.d)
-
-    def constval(self):
-        return numval(self.n) / numval(self.d)
-
-    def term(self):
-        if t_isone(self.d):
-            return self.n
-        return self.n / self.d
-
-    # -- arithmetic --------------------------------------------------------------------
-    def _coerce(self, o):
-        if isinstance(o, SR):
-            return o
-        if isinstance(o, _PYNUM):
-            return o
-        return None
-
-    def __add__(self, o):
-        if isinstance(o, SL):
-            return o.__radd__(self)
-        if isinstance(o, _PYNUM) and not isinstance(o, Fraction):
-            of = float(o)
-            if of == -math.inf:
-                return -math.inf      # an SR may denote a log-space value: x + (-inf) is log-zero
-            if of == 0 or (of == 1e-100 and ST.kappa_zero):
-                return self       # kappa regulariser (Factor.log's +1e-100) is checked at kappa = 0
-        o = self._coerce(o)
-        if o is None:
-            return NotImplemented
-        o = SR.lift(o)
-        if self.d.eq(o.d):
-            return SR(t_add(self.n, o.n), self.d, _sg_add(self.sg, o.sg))
-        if t_isone(self.d):
-            return SR(t_add(t_mul(self.n, o.d), o.n), o.d, _sg_add(self.sg, o.sg))
-        if t_isone(o.d):
-            return SR(t_add(self.n, t_mul(o.n, self.d)), self.d, _sg_add(self.sg, o.sg))
-        return SR(t_add(t_mul(self.n, o.d), t_mul(o.n, self.d)), t_mul(self.d, o.d), _sg_add(self.sg, o.sg))
-
-    __radd__ = __add__
-
-    def __neg__(self):
-        return SR(t_neg(self.n), self.d, _sg_neg(self.sg))
-
-    def __pos__(self):
-        return self
-
-    def __sub__(self, o):
-        if isinstance(o, SL):
-            return (-o).__radd__(self)
-        if isinstance(o, _PYNUM) and not isinstance(o, Fraction) and float(o) == -math.inf:
-            raise Poison("x - (-inf)")
-        o2 = self._coerce(o)
-        if o2 is None:
-            return NotImplemented
-        o2 = SR.lift(o2)
-        if o2 is self or (self.n.eq(o2.n) and self.d.eq(o2.d)):
-            return SR(_ZERO)
-        return self + (-o2)
-
-    def __rsub__(self, o):
-        if isinstance(o, _PYNUM) and not isinstance(o, Fraction) and float(o) == -math.inf:
-            return -math.inf
-        o2 = self._coerce(o)
-        if o2 is None:
-            return NotImplemented
-        return SR.lift(o2) + (-self)
-
-    def __mul__(self, o):
-        if isinstance(o, SL):
-            return o.__rmul__(self)
-        if isinstance(o, _PYNUM) and not isinstance(o, Fraction):
-            of = float(o)
-            if math.isinf(of):
-                # alpha * (-inf): only meaningful when the sign of alpha is known
-                if self.sg == "p":
-                    return of
-                if self.sg == "n":
-                    return -of
-                raise Poison("symbolic * inf with unknown sign")
-        o = self._coerce(o)
-        if o is None:
-            return NotImplemented
-        o = SR.lift(o)
-        return SR(t_mul(self.n, o.n), t_mul(self.d, o.d), _sg_mul(self.sg, o.sg))
-
-    __rmul__ = __mul__
-
-    def recip(self):
-        if self.sg == "p":
-            return SR(self.d, self.n, "p")
-        if self.sg == "n":
-            return SR(t_neg(self.d), t_neg(self.n), "n")
-        if self.sg == "z":
-            raise Poison("division by literal zero")
-        # unknown sign: obligation n != 0; keep denominator positive by squaring
-        ST.oblige("div-nonzero", self.n != 0, "division by a value of unknown sign")
-        return SR(t_mul(self.d, self.n), t_mul(self.n, self.n), None)
-
-    def __truediv__(self, o):
-        o2 = self._coerce(o)
-        if o2 is None:
-            return NotImplemented
-        return self * SR.lift(o2).recip()
-
-    def __rtruediv__(self, o):
-        o2 = self._coerce(o)
-        if o2 is None:
-            return NotImplemented
-        return SR.lift(o2) * self.recip()
-
-    def __pow__(self, k):
-        if isinstance(k, SR) and k.is_const():
-            k = k.constval()
-        if isinstance(k, (float, np.floating)) and float(k).is_integer():
-            k = int(k)
-        if isinstance(k, (int, np.integer)):
-            k = int(k)
-            if k == 0:
-                return SR(_ONE)
-            if k < 0:
-                return self.recip() ** (-k)
-            out = self
-            for _ in range(k - 1):
-                out = out * self
-            if k % 2 == 0 and out.sg is None:
-                out = SR(out.n, out.d, "nn")
-            return out
-        if isinstance(k, (float, Fraction)) and Fraction(k) == Fraction(1, 2):
-            return self.sqrt()
-        raise SymError("SR ** %r unsupported" % (k,))
-
-    def sqrt(self):
-        if self.is_const():
-            v = self.constval()
-            if v < 0:
-                raise Poison("sqrt of negative constant")
-            r = Fraction(math.isqrt(v.numerator), 1) / Fraction(math.isqrt(v.denominator), 1)
-            if r * r == v:
-                return SR(R(r))
-        if self.sg not in ("p", "nn", "z"):
-            ST.oblige("sqrt-nonneg", self.n >= 0, "sqrt argument")
-        key = ("sqrt", self.n.get_id(), self.d.get_id())
-        w = ST.rootcache.get(key)
-        if w is None:
-            v = ST.fresh("sqrt")
-            ST.assume(v >= 0)
-            # v^2 * d == n
-            ST.assume(t_mul(t_mul(v, v), self.d) == self.n)
-            ST.roots[str(v)] = (1, 2, self.term())
-            ST.rootcache[key] = (v,)
-            w = ST.rootcache[key]
-        sg = "p" if self.sg == "p" else "nn"
-        if sg == "p":
-            ST.assume(w[0] > 0)
-        return SR(w[0], _ONE, sg)
-
-    def __abs__(self):
-        if self.sg in ("p", "nn", "z"):
-            return self
-        if self.sg == "n":
-            return -self
-        return SR(z3.If(self.n >= 0, self.n, -self.n), self.d, "nn")
-
-    def sign(self):
-        if self.sg == "p":
-            return SR(_ONE)
-        if self.sg == "z":
-            return SR(_ZERO)
-        if self.sg == "n":
-            return SR(R(-1))
-        return SR(z3.If(self.n > 0, _ONE, z3.If(self.n < 0, R(-1), _ZERO)))
-
-    def exp(self):
-        """np.exp(SR) : only meaningful as 'log-space SR -> linear space'."""
-        return SR(E_atom(self.term()), _ONE, "p")
-
-    def log(self):
-        """np.log(x): linear -> log space."""
-        if self.sg == "z":
-            return SL.zero()
-        st = "p" if self.sg == "p" else None
-        if self.sg not in ("p", "nn"):
-            ST.oblige("log-nonneg", self.n >= 0, "log argument")
-        return SL.from_frac(self.n, self.d, None, st)
-
-    # -- comparisons -------------------------------------------------------------------
-    def _cmp(self, o, op):
-        if isinstance(o, SL):
-            raise SymError("comparison SR vs SL")
-        if isinstance(o, _PYNUM) and not isinstance(o, Fraction):
-            of = float(o)
-            if math.isinf(of):
-                lt = of > 0   # self < +inf ; self > -inf
-                return {"lt": lt, "le": lt, "gt": not lt, "ge": not lt, "eq": False, "ne": True}[op]
-        o2 = self._coerce(o)
-        if o2 is None:
-            return NotImplemented
-        o2 = SR.lift(o2)
-        if self.is_const() and o2.is_const():
-            a, b = self.constval(), o2.constval()
-            return {"lt": a < b, "le": a <= b, "gt": a > b, "ge": a >= b, "eq": a == b, "ne": a != b}[op]
-        if t_iszero(o2.n):
-            sg = self.sg
-            known = {
-                "p": {"lt": False, "le": False, "gt": True, "ge": True, "eq": False, "ne": True},
-                "z": {"lt": False, "le": True, "gt": False, "ge": True, "eq": True, "ne": False},
-                "n": {"lt": True, "le": True, "gt": False, "ge": False, "eq": False, "ne": True},
-                "nn": {"lt": False, "ge": True},
-            }.get(sg, {})
-            if op in known:
-                return known[op]
-            l, r = self.n, _ZERO
-        else:
-            l, r = t_mul(self.n, o2.d), t_mul(o2.n, self.d)
-        t = {"lt": l < r, "le": l <= r, "gt": l > r, "ge": l >= r, "eq": l == r, "ne": l != r}[op]
-        return _mk_sb(t)
-
-    def __lt__(self, o):
-        return self._cmp(o, "lt")
-
-    def __le__(self, o):
-        return self._cmp(o, "le")
-
-    def __gt__(self, o):
-        return self._cmp(o, "gt")
-
-    def __ge__(self, o):
-        return self._cmp(o, "ge")
-
-    def __eq__(self, o):
-        r = self._cmp(o, "eq")
-        return False if r is NotImplemented else r
-
-    def __ne__(self, o):
-        r = self._cmp(o, "ne")
-        return True if r is NotImplemented else r
-
-    __hash__ = Sym.__hash__
-
-    def __repr__(self):
-        s = str(self.term())
-        return "SR(%s)" % (s if len(s) < 60 else s[:57] + "...")
-
-
-
-
-# ----------------------------------------------------------------------------------------
-# log-space scalar
-# ----------------------------------------------------------------------------------------
 def _fmul(f, g, sign=1):
     """merge two factor dicts  id -> (term, power)"""
     if not g:
@@ -632,6 +341,368 @@ def _materialise(c, f):
     return num, den
 
 
+
+def _feq(f, g):
+    if f is g:
+        return True
+    if len(f) != len(g):
+        return False
+    for k, (_, p) in f.items():
+        h = g.get(k)
+        if h is None or h[1] != p:
+            return False
+    return True
+
+
+def _common(f, g):
+    """per-atom minimum power of two factor dicts (absent = 0)"""
+    if _feq(f, g):
+        return f
+    out = {}
+    for k in set(f) | set(g):
+        pf = f[k][1] if k in f else 0
+        pg = g[k][1] if k in g else 0
+        m = min(pf, pg)
+        if m != 0:
+            out[k] = ((f.get(k) or g.get(k))[0], m)
+    return out
+
+
+def _poly(n, f):
+    """n * prod atom**p for a factor dict with non-negative powers (what is left after taking the common part out)"""
+    if not f:
+        return n
+    num, den = _materialise(Fraction(1), f)
+    out = t_mul(n, num)
+    if not t_isone(den):
+        out = out / den
+    return out
+
+
+class SR(Sym):
+    """real number  n * prod_i atom_i**p_i  with atoms strictly positive z3 terms (p_i < 0 = denominator) and n an arbitrary
+    z3 Real term.  sg in {'z','p','nn','n',None}: syntactically known sign."""
+    __slots__ = ("n", "f", "sg")
+
+    def __init__(self, n, f=None, sg=None):
+        self.n = n
+        self.f = f or {}
+        if sg is None and is_num(n):
+            sg = _sg_of_const(numval(n))
+        if sg == "z":
+            self.n, self.f = _ZERO, {}
+        self.sg = sg
+
+    # -- construction ------------------------------------------------------------------
+    @staticmethod
+    def const(x):
+        return SR(R(x))
+
+    @staticmethod
+    def var(name, sg=None):
+        v = z3.Real(name)
+        if sg == "p":
+            ST.assume(v > 0)
+        elif sg == "nn":
+            ST.assume(v >= 0)
+        elif sg == "n":
+            ST.assume(v < 0)
+        return SR(v, None, sg)
+
+    @staticmethod
+    def lift(x):
+        if isinstance(x, SR):
+            return x
+        if isinstance(x, _PYNUM):
+            xf = float(x) if not isinstance(x, Fraction) else x
+            if isinstance(xf, float) and (math.isinf(xf) or math.isnan(xf)):
+                raise Poison("non-finite float %r in real arithmetic" % xf)
+            return SR(R(x if isinstance(x, (int, Fraction)) else xf))
+        raise SymError("cannot lift %r to SR" % (x,))
+
+    def is_const(self):
+        return is_num(self.n) and not self.f
+
+    def constval(self):
+        return numval(self.n)
+
+    def frac(self):
+        """(numerator term, positive denominator term)"""
+        num, den = _materialise(Fraction(1), self.f)
+        return t_mul(self.n, num), den
+
+    @property
+    def d(self):
+        return self.frac()[1]
+
+    def term(self):
+        n, d = self.frac()
+        if t_isone(d):
+            return n
+        return n / d
+
+    # -- arithmetic --------------------------------------------------------------------
+    def _coerce(self, o):
+        if isinstance(o, SR):
+            return o
+        if isinstance(o, _PYNUM):
+            return o
+        return None
+
+    def __add__(self, o):
+        if isinstance(o, SL):
+            return o.__radd__(self)
+        if isinstance(o, _PYNUM) and not isinstance(o, Fraction):
+            of = float(o)
+            if of == -math.inf:
+                return -math.inf      # an SR may denote a log-space value: x + (-inf) is log-zero
+            if of == 0 or (of == 1e-100 and ST.kappa_zero):
+                return self       # kappa regulariser (Factor.log's +1e-100) is checked at kappa = 0
+        o = self._coerce(o)
+        if o is None:
+            return NotImplemented
+        o = SR.lift(o)
+        if self.sg == "z":
+            return o
+        if o.sg == "z":
+            return self
+        sg = _sg_add(self.sg, o.sg)
+        if _feq(self.f, o.f):
+            return SR(t_add(self.n, o.n), self.f, sg)
+        com = _common(self.f, o.f)
+        a = _poly(self.n, _fmul(self.f, com, -1))
+        b = _poly(o.n, _fmul(o.f, com, -1))
+        return SR(t_add(a, b), com, sg)
+
+    __radd__ = __add__
+
+    def __neg__(self):
+        return SR(t_neg(self.n), self.f, _sg_neg(self.sg))
+
+    def __pos__(self):
+        return self
+
+    def __sub__(self, o):
+        if isinstance(o, SL):
+            return (-o).__radd__(self)
+        if isinstance(o, _PYNUM) and not isinstance(o, Fraction) and float(o) == -math.inf:
+            raise Poison("x - (-inf)")
+        o2 = self._coerce(o)
+        if o2 is None:
+            return NotImplemented
+        o2 = SR.lift(o2)
+        if o2 is self or (self.n.eq(o2.n) and _feq(self.f, o2.f)):
+            return SR(_ZERO)
+        return self + (-o2)
+
+    def __rsub__(self, o):
+        if isinstance(o, _PYNUM) and not isinstance(o, Fraction) and float(o) == -math.inf:
+            return -math.inf
+        o2 = self._coerce(o)
+        if o2 is None:
+            return NotImplemented
+        return SR.lift(o2) + (-self)
+
+    def __mul__(self, o):
+        if isinstance(o, SL):
+            return o.__rmul__(self)
+        if isinstance(o, _PYNUM) and not isinstance(o, Fraction):
+            of = float(o)
+            if math.isinf(of):
+                if self.sg == "p":
+                    return of
+                if self.sg == "n":
+                    return -of
+                raise Poison("symbolic * inf with unknown sign")
+        o = self._coerce(o)
+        if o is None:
+            return NotImplemented
+        o = SR.lift(o)
+        sg = _sg_mul(self.sg, o.sg)
+        if sg == "z":
+            return SR(_ZERO)
+        return SR(t_mul(self.n, o.n), _fmul(self.f, o.f), sg)
+
+    __rmul__ = __mul__
+
+    def recip(self):
+        if self.sg == "z":
+            raise Poison("division by literal zero")
+        finv = _fmul({}, self.f, -1)
+        if is_num(self.n):
+            return SR(R(1 / numval(self.n)), finv, self.sg)
+        if self.sg == "p":
+            return SR(_ONE, _fmul(finv, {self.n.get_id(): (self.n, 1)}, -1), "p")
+        if self.sg == "n":
+            m = t_neg(self.n)
+            return SR(R(-1), _fmul(finv, {m.get_id(): (m, 1)}, -1), "n")
+        ST.oblige("div-nonzero", self.n != 0, "division by a value of unknown sign")
+        sq = t_mul(self.n, self.n)
+        return SR(self.n, _fmul(finv, {sq.get_id(): (sq, 1)}, -1), None)
+
+    def __truediv__(self, o):
+        o2 = self._coerce(o)
+        if o2 is None:
+            return NotImplemented
+        return self * SR.lift(o2).recip()
+
+    def __rtruediv__(self, o):
+        o2 = self._coerce(o)
+        if o2 is None:
+            return NotImplemented
+        return SR.lift(o2) * self.recip()
+
+    def __pow__(self, k):
+        if isinstance(k, SR) and k.is_const():
+            k = k.constval()
+        if isinstance(k, (float, np.floating)) and float(k).is_integer():
+            k = int(k)
+        if isinstance(k, (int, np.integer)):
+            k = int(k)
+            if k == 0:
+                return SR(_ONE)
+            if k < 0:
+                return self.recip() ** (-k)
+            out = SR(_tpow(self.n, k), {kk: (t, p * k) for kk, (t, p) in self.f.items()}, None)
+            if k % 2 == 0:
+                out.sg = "p" if self.sg in ("p", "n") else ("z" if self.sg == "z" else "nn")
+            else:
+                out.sg = self.sg
+            return out
+        if isinstance(k, (float, Fraction)) and Fraction(k) == Fraction(1, 2):
+            return self.sqrt()
+        raise SymError("SR ** %r unsupported" % (k,))
+
+    def sqrt(self):
+        if self.is_const():
+            v = self.constval()
+            if v < 0:
+                raise Poison("sqrt of negative constant")
+            r = Fraction(math.isqrt(v.numerator), 1) / Fraction(math.isqrt(v.denominator), 1)
+            if r * r == v:
+                return SR(R(r))
+        if self.sg not in ("p", "nn", "z"):
+            ST.oblige("sqrt-nonneg", self.n >= 0, "sqrt argument")
+        half = {kk: (t, Fraction(p) / 2) for kk, (t, p) in self.f.items()}
+        if is_num(self.n):
+            v = numval(self.n)
+            r = Fraction(math.isqrt(v.numerator), 1) / Fraction(math.isqrt(v.denominator), 1) if v >= 0 else None
+            if r is not None and r * r == v:
+                return SR(R(r), half, "p" if v > 0 else "z")
+        key = ("sqrt", self.n.get_id())
+        w = ST.rootcache.get(key)
+        if w is None:
+            v = ST.fresh("sqrt")
+            ST.assume(v >= 0)
+            ST.assume(t_mul(v, v) == self.n)
+            ST.roots[str(v)] = (1, 2, self.n)
+            ST.rootcache[key] = (v,)
+            w = ST.rootcache[key]
+        sg = "p" if self.sg == "p" else "nn"
+        if sg == "p":
+            ST.assume(w[0] > 0)
+        return SR(w[0], half, sg)
+
+    def __abs__(self):
+        if self.sg in ("p", "nn", "z"):
+            return self
+        if self.sg == "n":
+            return -self
+        return SR(z3.If(self.n >= 0, self.n, -self.n), self.f, "nn")
+
+    def sign(self):
+        if self.sg == "p":
+            return SR(_ONE)
+        if self.sg == "z":
+            return SR(_ZERO)
+        if self.sg == "n":
+            return SR(R(-1))
+        return SR(z3.If(self.n > 0, _ONE, z3.If(self.n < 0, R(-1), _ZERO)))
+
+    def exp(self):
+        """np.exp(SR) : only meaningful as 'log-space SR -> linear space'."""
+        e = E_atom(self.term())
+        if is_num(e):
+            return SR(e)
+        return SR(_ONE, {e.get_id(): (e, 1)}, "p")
+
+    def log(self):
+        """np.log(x): linear -> log space."""
+        if self.sg == "z":
+            return SL.zero()
+        st = "p" if self.sg == "p" else None
+        if self.sg not in ("p", "nn"):
+            ST.oblige("log-nonneg", self.n >= 0, "log argument")
+        if is_num(self.n):
+            return SL(numval(self.n), self.f, None, st)
+        return SL(Fraction(1), _fmul(self.f, {self.n.get_id(): (self.n, 1)}), None, st)
+
+    # -- comparisons -------------------------------------------------------------------
+    def _cmp(self, o, op):
+        if isinstance(o, SL):
+            raise SymError("comparison SR vs SL")
+        if isinstance(o, _PYNUM) and not isinstance(o, Fraction):
+            of = float(o)
+            if math.isinf(of):
+                lt = of > 0   # self < +inf ; self > -inf
+                return {"lt": lt, "le": lt, "gt": not lt, "ge": not lt, "eq": False, "ne": True}[op]
+        o2 = self._coerce(o)
+        if o2 is None:
+            return NotImplemented
+        o2 = SR.lift(o2)
+        if self.is_const() and o2.is_const():
+            a, b = self.constval(), o2.constval()
+            return {"lt": a < b, "le": a <= b, "gt": a > b, "ge": a >= b, "eq": a == b, "ne": a != b}[op]
+        if o2.sg == "z":
+            sg = self.sg
+            known = {
+                "p": {"lt": False, "le": False, "gt": True, "ge": True, "eq": False, "ne": True},
+                "z": {"lt": False, "le": True, "gt": False, "ge": True, "eq": True, "ne": False},
+                "n": {"lt": True, "le": True, "gt": False, "ge": False, "eq": False, "ne": True},
+                "nn": {"lt": False, "ge": True},
+            }.get(sg, {})
+            if op in known:
+                return known[op]
+            l, r = self.n, _ZERO
+        elif self.sg == "z":
+            l, r = _ZERO, o2.n
+        else:
+            com = _common(self.f, o2.f)
+            l = _poly(self.n, _fmul(self.f, com, -1))
+            r = _poly(o2.n, _fmul(o2.f, com, -1))
+        t = {"lt": l < r, "le": l <= r, "gt": l > r, "ge": l >= r, "eq": l == r, "ne": l != r}[op]
+        return _mk_sb(t)
+
+    def __lt__(self, o):
+        return self._cmp(o, "lt")
+
+    def __le__(self, o):
+        return self._cmp(o, "le")
+
+    def __gt__(self, o):
+        return self._cmp(o, "gt")
+
+    def __ge__(self, o):
+        return self._cmp(o, "ge")
+
+    def __eq__(self, o):
+        r = self._cmp(o, "eq")
+        return False if r is NotImplemented else r
+
+    def __ne__(self, o):
+        r = self._cmp(o, "ne")
+        return True if r is NotImplemented else r
+
+    __hash__ = Sym.__hash__
+
+    def __repr__(self):
+        s = " ".join(str(self.term()).split())
+        return "SR(%s)" % (s if len(s) < 90 else s[:87] + "...")
+
+
+# ----------------------------------------------------------------------------------------
+# log-space scalar
+# ----------------------------------------------------------------------------------------
 class SL(Sym):
     """log(V),  V = c * prod_i atom_i**p_i * E(a) >= 0.
     c: Fraction >= 0; atoms: z3 terms known to be >= 0 (variables, sums of monomials, exp-atoms), p_i rational (negative =
@@ -823,8 +894,13 @@ class SL(Sym):
     def exp(self):
         if self.st == "z":
             return SR(_ZERO)
-        n, d = self.vfrac()
-        return SR(n, d, "p" if self.st == "p" else "nn")
+        self._use()
+        f = self.f
+        if self.a is not None:
+            e = E_atom(self.a)
+            if not is_num(e):
+                f = _fmul(f, {e.get_id(): (e, 1)})
+        return SR(R(self.c), f, "p" if self.st == "p" else "nn")
 
     def log(self):
         raise SymError("log of a log-space value")
